@@ -7,10 +7,12 @@ TraceLog == ndJsonDeserialize(IOEnv.TRACE_FILE)
 Judge(L) ==
   IF L.kind \notin XSKinds THEN "unknown_kind"
   ELSE IF L.coeffs # Coeffs(L.kind, L.proj, L.pt, FALSE) \/ L.atom # Atom(L.kind) THEN "coefficients_differ_from_spec"
+  ELSE IF L.coeffs2 # Coeffs(L.kind, L.proj, [L.pt EXCEPT !.y = RDiv(L.pt.y, RI(2))], FALSE) THEN "coefficients_differ_from_spec"
   ELSE IF L.outcome # "OK" THEN "outcome_" \o L.outcome
   ELSE IF ~L.keyset_ok THEN "order_keys_differ_from_structure_functions"
   ELSE IF L.nkeys < 1 THEN "no_order_keys"
   ELSE IF L.resid_milli > 1000 THEN "not_the_documented_combination"
+  ELSE IF L.resid2_milli > 1000 THEN "not_the_documented_combination_at_the_second_inelasticity"
   ELSE IF ~L.kinematics_ok THEN "result_kinematics_differ_from_request"
   ELSE "ok"
 VARIABLE l
